@@ -192,6 +192,8 @@ def binop(op, a, b):
         return Opaque("arith", getattr(a, "prov", ()) + getattr(b, "prov", ()))
     if isinstance(op, ast.Mult) and isinstance(a, (list, tuple)) and isinstance(b, NRows):
         return a * b.n
+    if isinstance(a, NRows) or isinstance(b, NRows):
+        return Opaque("table-size arithmetic")
     if type(op) in (ast.BitAnd, ast.BitOr, ast.BitXor):
         if isinstance(a, bool) and isinstance(b, bool):
             return {ast.BitAnd: a and b, ast.BitOr: a or b, ast.BitXor: a != b}[type(op)]
